@@ -40,7 +40,7 @@ func (S) Level() string { return "fault_enumeration" }
 func (S) Info() scen.Info {
 	return scen.Info{
 		Rule: "unit = seeded (workload of <=6 store operations over 1-4 keys, task schedule); per unit: 1 fault-free run recording the fs-call trace, then one run per crash point (before every mutating fs call, after the last call, inside every write at prefix 0/1/mid/len-1), one run per (fs call, error variant), seeded error pairs, and seeded (error at an earlier call, crash at a later one) pairs. " +
-			"distinct_nontrivial counts distinct hash(trace shape, fault mode, fault position+variant, directory state found at restart) over runs in which the crash or error actually fired.",
+			"distinct_nontrivial counts distinct hash(trace shape, fault mode, fault position+variant, directory state found at restart) over runs in which the crash or error actually fired. Later additions: the context of the operations cancelled after every number of fs calls; in 15% of workloads rename refuses to replace an existing file.",
 		DistinctSet: "faulted_state",
 		Assumptions: []string{
 			"crash = process death: every completed syscall is durable, nothing else (no power-loss / page-cache model; fsstore documents that it does not fsync)",
